@@ -24,6 +24,7 @@ type Sys struct {
 	menu  []string
 	db    state.Database
 	st    *state.StateDB
+	other *state.StateDB // the original a copy was taken from: stays alive and must stay consistent
 	snaps []int
 	mut   stx.Mut
 	n     int
@@ -96,6 +97,21 @@ func (s *Sys) Apply(op string) string {
 		}
 		s.viols = append(s.viols, mc.Violation{Sig: fmt.Sprintf("%s after %s", kind, opKind(op)), Detail: b})
 	}
+	// both sides of a copy stay alive in the node (pending-state snapshot of the
+	// miner, side-chain state cache): whatever is done to one side, the records
+	// and statistics of the other side must still add up
+	if s.other != nil && op != "copy" {
+		var ob2 []string
+		if m, w := mc.CatchStack(func() { ob2 = stx.CheckLinks(s.other, []common.Address{stx.Acc[2], stx.Acc[0]}) }); m != "" {
+			s.dead = true
+			s.viols = append(s.viols, mc.Violation{Sig: fmt.Sprintf("panic while reading the other side of a copy after op=%s at=%s", opKind(op), w), Detail: m})
+			return "PANIC: " + m
+		}
+		s.r.Count("link_checks_other_side_of_copy", 1)
+		for _, b := range ob2 {
+			s.viols = append(s.viols, mc.Violation{Sig: fmt.Sprintf("other side of a copy: %s after %s", kindOf(b), opKind(op)), Detail: b})
+		}
+	}
 	return ob
 }
 
@@ -127,6 +143,7 @@ func (s *Sys) apply(op string) string {
 		s.st, s.snaps = re, s.snaps[:0]
 		s.r.Count("reloads", 1)
 	case "copy":
+		s.other = st
 		s.st, s.snaps = st.Copy(), s.snaps[:0]
 		s.r.Count("copies", 1)
 	default:
